@@ -129,7 +129,7 @@ fn one_case(sh: &mut Shard, tape: &[u32], cfg: &GenCfg) -> Result<(), Violation>
     let r = render(&prog, &Layout::plain());
     sh.eval();
     let res = match refsem::run(&prog, 200_000) {
-        Outcome::Undetermined(why) => {
+        Outcome::Undetermined(why, _) => {
             sh.discard(&format!("undetermined: {}", why));
             return Ok(());
         }
